@@ -63,6 +63,7 @@ type Options struct {
 	MapOrders bool
 	Workers   int
 	Tier      int
+	Merge     map[string]bool
 }
 
 type PathResult struct {
@@ -73,7 +74,21 @@ type PathResult struct {
 	Steps     int
 }
 
+// scope is one level of decision bookkeeping: the whole path at top level,
+// or the local exploration of a merged (pure) callee.
+type scope struct {
+	prefix []int
+	pos    int
+	trace  []int
+	forks  [][]int
+}
+
+type mergeAbort struct{ why string }
+
 type Exec struct {
+	sc        *scope
+	mergeMark []int // cell-id watermarks of active merged calls
+	Merged    map[string]int
 	Prog *ssa.Program
 	C    *smt.Ctx
 	S    *smt.Session
@@ -81,10 +96,6 @@ type Exec struct {
 
 	// per-path state
 	pc       []*smt.Term
-	prefix   []int
-	pos      int
-	trace    []int
-	forks    [][]int
 	inputs   []Input
 	globals  map[*ssa.Global]*Cell
 	initDone map[*ssa.Package]bool
@@ -166,10 +177,10 @@ func (x *Exec) Branch(cond *smt.Term) bool {
 	if cond.IsConst() {
 		return cond.U == 1
 	}
-	if x.pos < len(x.prefix) {
-		d := x.prefix[x.pos]
-		x.pos++
-		x.trace = append(x.trace, d)
+	if x.sc.pos < len(x.sc.prefix) {
+		d := x.sc.prefix[x.sc.pos]
+		x.sc.pos++
+		x.sc.trace = append(x.sc.trace, d)
 		if d == 1 {
 			x.assume(cond)
 		} else {
@@ -177,13 +188,13 @@ func (x *Exec) Branch(cond *smt.Term) bool {
 		}
 		return d == 1
 	}
-	x.pos++
+	x.sc.pos++
 	rt := x.query(cond)
 	if rt == smt.Unknown {
 		x.note("branch feasibility unknown: kept")
 	}
 	if rt == smt.Unsat {
-		x.trace = append(x.trace, 0)
+		x.sc.trace = append(x.sc.trace, 0)
 		x.assume(x.C.Not(cond))
 		return false
 	}
@@ -192,10 +203,10 @@ func (x *Exec) Branch(cond *smt.Term) bool {
 		x.note("branch feasibility unknown: kept")
 	}
 	if rf != smt.Unsat {
-		alt := append(append([]int{}, x.trace...), 0)
-		x.forks = append(x.forks, alt)
+		alt := append(append([]int{}, x.sc.trace...), 0)
+		x.sc.forks = append(x.sc.forks, alt)
 	}
-	x.trace = append(x.trace, 1)
+	x.sc.trace = append(x.sc.trace, 1)
 	x.assume(cond)
 	return true
 }
@@ -208,18 +219,18 @@ func (x *Exec) Choose(n int) int {
 	if n == 1 {
 		return 0
 	}
-	if x.pos < len(x.prefix) {
-		d := x.prefix[x.pos]
-		x.pos++
-		x.trace = append(x.trace, d)
+	if x.sc.pos < len(x.sc.prefix) {
+		d := x.sc.prefix[x.sc.pos]
+		x.sc.pos++
+		x.sc.trace = append(x.sc.trace, d)
 		return d
 	}
-	x.pos++
+	x.sc.pos++
 	for i := n - 1; i >= 1; i-- {
-		alt := append(append([]int{}, x.trace...), i)
-		x.forks = append(x.forks, alt)
+		alt := append(append([]int{}, x.sc.trace...), i)
+		x.sc.forks = append(x.sc.forks, alt)
 	}
-	x.trace = append(x.trace, 0)
+	x.sc.trace = append(x.sc.trace, 0)
 	return 0
 }
 
@@ -229,15 +240,15 @@ func (x *Exec) Concretize(t *smt.Term, max int, what string) uint64 {
 	if t.IsConst() {
 		return t.U
 	}
-	if x.pos < len(x.prefix) {
-		d := x.prefix[x.pos]
-		x.pos++
-		x.trace = append(x.trace, d)
+	if x.sc.pos < len(x.sc.prefix) {
+		d := x.sc.prefix[x.sc.pos]
+		x.sc.pos++
+		x.sc.trace = append(x.sc.trace, d)
 		v := x.C.BVC(t.Sort.W, uint64(d))
 		x.assume(x.C.Eq(t, v))
 		return uint64(d)
 	}
-	x.pos++
+	x.sc.pos++
 	var vals []uint64
 	var excl []*smt.Term
 	for len(vals) <= max {
@@ -261,10 +272,10 @@ func (x *Exec) Concretize(t *smt.Term, max int, what string) uint64 {
 	}
 	sort.Slice(vals, func(i, j int) bool { return vals[i] < vals[j] })
 	for i := len(vals) - 1; i >= 1; i-- {
-		alt := append(append([]int{}, x.trace...), int(vals[i]))
-		x.forks = append(x.forks, alt)
+		alt := append(append([]int{}, x.sc.trace...), int(vals[i]))
+		x.sc.forks = append(x.sc.forks, alt)
 	}
-	x.trace = append(x.trace, int(vals[0]))
+	x.sc.trace = append(x.sc.trace, int(vals[0]))
 	x.assume(x.C.Eq(t, x.C.BVC(t.Sort.W, vals[0])))
 	return vals[0]
 }
@@ -306,7 +317,7 @@ func (x *Exec) fullModel() smt.Model {
 }
 
 func (x *Exec) unwindFailure(msg string) {
-	f := &Finding{Kind: "unwind", Label: "unwind", Msg: msg, Harness: x.harness, Path: append([]int{}, x.trace...)}
+	f := &Finding{Kind: "unwind", Label: "unwind", Msg: msg, Harness: x.harness, Path: append([]int{}, x.sc.trace...)}
 	if x.query() == smt.Sat {
 		f.Model = x.fullModel()
 		f.Tape = x.tape(f.Model)
@@ -341,12 +352,12 @@ func (x *Exec) Assert(cond *smt.Term, label string) {
 	case smt.Unsat:
 		return
 	case smt.Unknown:
-		x.findings = append(x.findings, &Finding{Kind: "unknown", Label: label, Msg: "solver unknown on assertion", Harness: x.harness, Path: append([]int{}, x.trace...)})
+		x.findings = append(x.findings, &Finding{Kind: "unknown", Label: label, Msg: "solver unknown on assertion", Harness: x.harness, Path: append([]int{}, x.sc.trace...)})
 		x.assume(cond)
 		return
 	}
 	m := x.fullModel()
-	f := &Finding{Kind: "assert", Label: label, Model: m, Tape: x.tape(m), Harness: x.harness, Path: append([]int{}, x.trace...)}
+	f := &Finding{Kind: "assert", Label: label, Model: m, Tape: x.tape(m), Harness: x.harness, Path: append([]int{}, x.sc.trace...)}
 	if x.overApprox {
 		f.Msg = "over-approximated path"
 	}
@@ -381,10 +392,8 @@ type Sample struct {
 // RunPath executes the harness once under the given decision prefix.
 func (x *Exec) RunPath(fn *ssa.Function, prefix []int) (res *PathResult, forks [][]int, err error) {
 	x.pc = x.pc[:0]
-	x.prefix = prefix
-	x.pos = 0
-	x.trace = nil
-	x.forks = nil
+	x.sc = &scope{prefix: prefix}
+	x.mergeMark = nil
 	x.inputs = nil
 	x.globals = map[*ssa.Global]*Cell{}
 	x.initDone = map[*ssa.Package]bool{}
@@ -402,11 +411,11 @@ func (x *Exec) RunPath(fn *ssa.Function, prefix []int) (res *PathResult, forks [
 	res = &PathResult{}
 	defer func() {
 		r := recover()
-		res.Decisions = x.trace
+		res.Decisions = x.sc.trace
 		res.Reached = x.reached
 		res.Findings = x.findings
 		res.Steps = x.steps
-		forks = x.forks
+		forks = x.sc.forks
 		switch r := r.(type) {
 		case nil:
 			res.End = "ok"
@@ -418,7 +427,7 @@ func (x *Exec) RunPath(fn *ssa.Function, prefix []int) (res *PathResult, forks [
 		case *targetPanic:
 			// uncaught panic in code under test
 			msg := x.panicString(r)
-			f := &Finding{Kind: "panic", Label: "panic", Msg: msg, Harness: x.harness, Path: append([]int{}, x.trace...)}
+			f := &Finding{Kind: "panic", Label: "panic", Msg: msg, Harness: x.harness, Path: append([]int{}, x.sc.trace...)}
 			if q := x.safeQuery(); q == smt.Sat {
 				f.Model = x.fullModel()
 				f.Tape = x.tape(f.Model)
